@@ -463,6 +463,9 @@ def run(sched):
                 raise ValueError(do)
         hz = sched.get("horizon")
         await w.loop.drain(horizon=None if hz is None else (last_at + hz) / 1024.0)
+        for c in w.loop.exceptions:
+            exc = c.get("exception")
+            ev("loopexc", x=type(exc).__name__ if exc is not None else "message", cls=str(c.get("message", ""))[:60])
         ev("end")
         frozen.append(True)
         meta = {
